@@ -818,9 +818,18 @@ let mkplan s e =
                              (match p3 with
                               | XI p4 ->
                                 (match p4 with
+                                 | XI _ -> None
+                                 | XO p5 ->
+                                   (match p5 with
+                                    | XH ->
+                                      if znz v
+                                      then if at_ W
+                                           then act1 x (CKick a0)
+                                           else skip
+                                      else ok x
+                                    | _ -> None)
                                  | XH ->
-                                   if at_ C2 then act1 x (Step a0) else skip
-                                 | _ -> None)
+                                   if at_ C2 then act1 x (Step a0) else skip)
                               | XO p4 ->
                                 (match p4 with
                                  | XH ->
